@@ -10,11 +10,15 @@ import (
 )
 
 // Pass rest of the file to jsc scanner to find out where jschema ends
-func stateJSchema(s *Scanner, _ byte) *jerr.JApiError {
+func stateJSchema(s *Scanner, c byte) *jerr.JApiError {
 	s.found(SchemaBegin)
 	schemaLength, je := s.readSchemaWithJsc()
 	if je != nil {
 		return je
+	}
+	if schemaLength == 0 && c != EOF {
+		// Nothing but comments up to the end of the file: there is no schema here.
+		return s.japiErrorUnexpectedChar("at the beginning of the schema", "")
 	}
 	if schemaLength > 0 {
 		s.curIndex += bytes.Index(schemaLength - 1)
